@@ -681,7 +681,7 @@ def protocol_chunk(hists, root, seed):
                     got = 'raised %r' % (e,)
                 col.replayed += 1
                 if got != st['res']:
-                    col.violation('C10:protocol:%s' % op, 'FitInfoFile history %r: step %d (%s) gave %r, spec %r' % ([s_['op'] for s_ in hist], si, op, got, st['res']),
+                    col.violation('X08:protocol:%s' % op, 'FitInfoFile history %r: step %d (%s) gave %r, spec %r' % ([s_['op'] for s_ in hist], si, op, got, st['res']),
                                   {'history': hist, 'step': si, 'observed': got})
                     break
             if fh is not None:
@@ -710,7 +710,6 @@ def protocol_replay(ctx):
 
 def run_C10(ctx):
     run_common(ctx, 'C10')
-    protocol_replay(ctx)
     record_and_validate(ctx, 'C10', 8 if not ctx.thorough else 48, 8 if not ctx.thorough else 20)
     ctx.assumptions += ['runs that write no record are outside the property and not replayed',
                         'thresholds are chosen off every attained chi^2 (UnitOK assumption checked by TLC)']
